@@ -5,6 +5,7 @@ import datetime
 import io
 import contextlib
 import json
+import os
 import warnings
 
 import c07
@@ -163,6 +164,24 @@ def same_run(a, b_, gcs=None, nveh=None, prefix=False):
     return None
 
 
+_TW = {}
+
+
+def tw_path():
+    """time-window file for the peak_load_window histories (all year, all levels; written once per process)"""
+    if "p" not in _TW:
+        import atexit
+        import shutil
+        import tempfile
+        d = tempfile.mkdtemp(prefix="verif_c16tw_")
+        atexit.register(shutil.rmtree, d, True)
+        p = os.path.join(d, "tw.json")
+        json.dump({"default_grid_operator": {"all": {"start": "2023-01-01", "end": "2023-12-31", "windows": {
+            lv: [["08:00", "11:00"], ["22:00", "01:00"]] for lv in ("HV", "MV", "LV")}}}}, open(p, "w"))
+        _TW["p"] = p
+    return _TW["p"]
+
+
 class HistoryUnit(corr.Unit):
     name = "histories"
     tagfn = None
@@ -181,17 +200,22 @@ class HistoryUnit(corr.Unit):
             out.append({"js": js, "strategy": ["greedy", "balanced", "distributed", "greedy"][k], "options": {"ALLOW_NEGATIVE_SOC": True},
                         "weeks": 1, "other": "balanced", "seed": 2 * rng.randrange(10**5)})
         for _ in range(n - len(out)):
-            strategy = rng.choice(["greedy", "balanced", "distributed", "balanced_market", "peak_shaving", "peak_shaving"])
-            slow = strategy in ("balanced_market", "peak_shaving")
+            strategy = rng.choice(["greedy", "balanced", "distributed", "balanced_market", "peak_shaving", "peak_shaving", "peak_load_window"])
+            slow = strategy in ("balanced_market", "peak_shaving", "peak_load_window")
             js = scen.gen_scenario(rng, n_gc=rng.choice([1, 2]) if not slow else 1, steps=rng.choice([6, 12, 24]) if not slow else 8,
                                    interval=None if not slow else 60)
             js.pop("_features", None)
             opts = {"ALLOW_NEGATIVE_SOC": True}
             if rng.random() < 0.3:
                 opts["CONCURRENCY"] = 0.5
+            if rng.random() < 0.4:
+                # reports are aggregated at the end of the run (they must leave the scenario alone as well; round-4 seed C16-s9)
+                opts["testing"] = True
             if rng.random() < 0.5:
                 # the default: the end-of-run flexibility report is computed (it must not touch the scenario either; round-3 seed C16-s8)
                 opts["skip_flex_report"] = False
+            if strategy == "peak_load_window":
+                opts["time_windows"] = tw_path()
             out.append({"js": js, "strategy": strategy, "options": opts, "weeks": rng.choice([1, 2, 5, 52]),
                         "other": rng.choice(["greedy", "balanced", "distributed"]), "seed": rng.randrange(10**6)})
         return out
@@ -223,7 +247,7 @@ class HistoryUnit(corr.Unit):
             res["after_other_strategy"] = same_run(r1, r1c)
             s3 = sc.Scenario(shift_js(case["js"], 7 * case["weeks"]), "")
             res["shift"] = same_run(r1, plain_run(s3, case["strategy"], case["options"]))
-            if case["strategy"] in ("greedy", "balanced", "distributed", "peak_shaving", "balanced_market"):
+            if case["strategy"] in ("greedy", "balanced", "distributed", "peak_shaving", "balanced_market", "peak_load_window"):
                 js4 = add_unrelated_gc(case["js"], random.Random(case["seed"]), first=case["seed"] % 2 == 0)
                 s4 = sc.Scenario(js4, "")
                 r4 = plain_run(s4, case["strategy"], case["options"])
